@@ -191,8 +191,109 @@ func roadBoard(r *rand.Rand, size int) *tak.Position {
 	return p
 }
 
+// snakeBoard: a boustrophedon road that winds across the board (rows or columns two apart joined
+// alternately at the two edges), so that the distance inside the group is far larger than the board;
+// optionally cut at one square (then there is no road) or with a second colour's straight road.
+func snakeBoard(r *rand.Rand, size int) *tak.Position {
+	board := make([][]tak.Square, size)
+	for y := range board {
+		board[y] = make([]tak.Square, size)
+	}
+	col := tak.White
+	if r.Intn(2) == 0 {
+		col = tak.Black
+	}
+	transpose := r.Intn(2) == 0
+	flip := r.Intn(2) == 0
+	// the horizontal runs use columns x0..x1; with a margin the runs are not roads themselves and only
+	// the whole winding path joins bottom and top
+	x0, x1 := 0, size-1
+	if size >= 4 {
+		switch r.Intn(4) {
+		case 0:
+			x0 = 1
+		case 1:
+			x1 = size - 2
+		case 2, 3:
+			x0, x1 = 1, size-2
+		}
+	}
+	var path [][2]int
+	dirRight := true
+	for row := 0; row < size; row += 2 {
+		if dirRight {
+			for x := x0; x <= x1; x++ {
+				path = append(path, [2]int{x, row})
+			}
+			if row+1 < size {
+				path = append(path, [2]int{x1, row + 1})
+			}
+		} else {
+			for x := x1; x >= x0; x-- {
+				path = append(path, [2]int{x, row})
+			}
+			if row+1 < size {
+				path = append(path, [2]int{x0, row + 1})
+			}
+		}
+		dirRight = !dirRight
+	}
+	cut := -1
+	if r.Intn(3) == 0 {
+		cut = r.Intn(len(path))
+	}
+	for i, xy := range path {
+		x, y := xy[0], xy[1]
+		if flip {
+			x = size - 1 - x
+		}
+		if transpose {
+			x, y = y, x
+		}
+		k := tak.Flat
+		if r.Intn(10) == 0 {
+			k = tak.Capstone
+		}
+		c := col
+		if i == cut {
+			if r.Intn(2) == 0 {
+				k = tak.Standing
+			} else {
+				c = col.Flip()
+			}
+		}
+		board[y][x] = tak.Square{tak.MakePiece(c, k)}
+	}
+	// fill some of the remaining squares with walls of either colour / enemy flats (never joining rows)
+	for y := range board {
+		for x := range board[y] {
+			if len(board[y][x]) == 0 && r.Intn(3) == 0 {
+				c := tak.White
+				if r.Intn(2) == 0 {
+					c = tak.Black
+				}
+				k := tak.Standing
+				if c != col && r.Intn(2) == 0 {
+					k = tak.Flat
+				}
+				board[y][x] = tak.Square{tak.MakePiece(c, k)}
+			}
+		}
+	}
+	cfg := tak.Config{Size: size, BlackWinsTies: r.Intn(3) == 0}
+	fitReserves(r, &cfg, board)
+	p, err := tak.FromSquares(cfg, board, 2+r.Intn(40))
+	if err != nil {
+		panic(err)
+	}
+	return p
+}
+
 func runC02(c *ctx) {
 	r := c.r
+	for b := 0; b < 120*c.scale; b++ {
+		emitC02(c, snakeBoard(r, 3+b%6), "snake")
+	}
 	for g := 0; g < 60*c.scale; g++ {
 		size := 3 + g%6
 		cfg := randCfg(r, size)
